@@ -31,6 +31,16 @@ CLAIMED = {
              'search on real code, not yet a theorem; stacked text is a known finding.',
         technique='Lean 4 proof on an executable model + correspondence check against the Go builders + real-build block comparison',
         ref='8/C05'),
+    'C03': dict(
+        text='Lean 4 theorems on the line-level specification of only/exclude (kept iff the target is named / not named, the '
+             'marker never survives, unguarded lines unchanged, target table: each distribution in exactly one family, by decide '
+             'on the regenerated table). The step-by-step model of directive.Run is run against the real code on generated and '
+             'shipped texts x targets; the real code is judged against the specification on every well-formed text (Filter.wf).',
+        note='Trusted: Lean kernel; the refinement model = spec on well-formed texts is validated by evaluation on every run, '
+             'not proved; paragraph markers holding regex metacharacters other than "." are outside the model (counted as '
+             'unmodelled); other directive kinds are neutralised in shipped files for this check.',
+        technique='Lean 4 proof on the specification + executable model and spec tied to directive.Run by differential runs',
+        ref='8/C03'),
 }
 
 REASON_TODO = 'check not built yet in this round; no claim is made (see DESIGN.md section 13)'
